@@ -1005,6 +1005,13 @@ class Executor(ExprMixin, StmtMixin, LoopMixin):
         # a call under short-circuit / conditional-expression guards (`a and f(x)`, `f(x) if c else y`) only happens
         # when the guards hold: its effects are conditional on them
         active = [f for f in st.pc if getattr(f, "_is_guard", False)]
+        if active and cc.modifies:
+            # a guard that the rest of the path condition already implies (`any(True for g in glyphs) and f(..)` after a proved
+            # hint `len(glyphs) > 0`) is no condition at all: the effects stay unconditional instead of ~15 ite terms
+            from . import quick
+
+            base_ = [f for f in st.pc if not getattr(f, "_is_guard", False)]
+            active = [f for f in active if not (quick.ground(f) and quick.entails(base_, f))]
         if active and cc.modifies and getattr(self, "_split_ok", False):
             raise SplitGuard()  # the enclosing statement can make the guard an explicit `if`: simpler terms, exact frames
         heap_before, alloc_before = dict(st.heap), st.alloc
